@@ -542,6 +542,8 @@ def build_borealis(sf, case):
     n, Nc = get_mode_indices(DELAYS)
     prog = sf.TDMProgram(Nc)
     ga = case["args"]
+    if case.get("via_utils"):
+        ga = utils_args(sf, case)
     mut = case.get("mut")
     with prog.context(*ga) as (p, q):
         if mut == "first-rgate":
@@ -569,8 +571,18 @@ def build_borealis(sf, case):
     return prog
 
 
+def utils_args(sf, case):
+    """the gate arguments after tdm.utils.make_phases_compatible (dictionary form and back)"""
+    from strawberryfields.tdm import utils as tu
+    dev = types.SimpleNamespace(certificate={"loop_phases": list(case["loop_phases"])})
+    a = case["args"]
+    d = {"Sgate": list(a[0]), "loops": {i: {"Rgate": list(a[1 + 2 * i]), "BSgate": list(a[2 + 2 * i])} for i in range(3)}}
+    out = tu.make_phases_compatible(d, dev)
+    return [out["Sgate"]] + [out["loops"][i][g] for i in range(3) for g in ("Rgate", "BSgate")]
+
+
 def gen_borealis_case(rng):
-    L = rng.choice([10, 20, 37, 60])
+    L = rng.choice([10, 20, 37, 46, 50, 60])
     lp = [rng.choice([0.1, -0.1, 3.0, 0.0, 1.0, -2.5, PI / 7]) for _ in range(3)]
     inrange = rng.random() < 0.88
 
@@ -588,7 +600,8 @@ def gen_borealis_case(rng):
         k = rng.randrange(3)
         offsets[k] = lp[k] if rng.random() < 0.7 else 0.25
     mut = rng.choice([None] * 10 + ["no-measure", "first-rgate", "bs-swapped", "bs-phase", "extra-rgate", "homodyne"])
-    return dict(kind="borealis", L=L, loop_phases=lp, args=args, offsets=offsets, mut=mut)
+    return dict(kind="borealis", L=L, loop_phases=lp, args=args, offsets=offsets, mut=mut,
+                via_utils=(offsets == [None, None, None] and rng.random() < 0.3), loss=rng.random() < 0.25)
 
 
 def wrap_to_pi(x):
@@ -597,20 +610,47 @@ def wrap_to_pi(x):
 
 
 def borealis_oracle(ctx, sf, fx, case, count=True):
+    try:
+        _borealis_oracle(ctx, sf, fx, case, count)
+    except Exception as e:  # noqa: BLE001
+        ctx.fail(f"tdm-oracle-crash:{type(e).__name__}", f"borealis: {type(e).__name__} {str(e)[:150]}", dict(case))
+
+
+def _borealis_oracle(ctx, sf, fx, case, count=True):
     from strawberryfields.program_utils import CircuitError
     from strawberryfields.parameters import par_evaluate
     dev, spec = borealis_device(sf, fx, case["loop_phases"])
     rp = dict(case)
+    eff_args = case["args"]
+    if case.get("via_utils"):
+        a0 = copy.deepcopy(case["args"])
+        eff_args = utils_args(sf, case)
+        if case["args"] != a0:
+            ctx.fail("tdm-utils-input-mutated", "make_phases_compatible changed its input in place", rp)
+        for i in range(3):
+            d_ = np.array(eff_args[1 + 2 * i], dtype=float) - np.array(case["args"][1 + 2 * i], dtype=float)
+            off = np.abs(wrap_to_pi(2 * d_)) / 2
+            if (i == 0 and np.max(np.abs(d_)) > 0) or np.max(off) > 1e-9 or eff_args[2 + 2 * i] != case["args"][2 + 2 * i]:
+                ctx.fail("tdm-utils-phases:borealis", f"make_phases_compatible: loop {i} phases are not the input up to added pi (loop 0: unchanged)", rp)
+                return
     ctx.oracle_cases += 1
     try:
         prog = build_borealis(sf, case)
     except Exception as e:  # noqa: BLE001
         ctx.tally(f"tdm:unbuildable:{type(e).__name__}")
         return
+    snap0, cert0, spec0 = prog_snapshot(prog), copy.deepcopy(dev.certificate), copy.deepcopy(spec)
+
+    def inputs_untouched():
+        if prog_snapshot(prog) != snap0:
+            ctx.fail("tdm-input-mutated:borealis", "Borealis: compiling changed the source program (circuit or gate arguments) in place", rp)
+        if dev.certificate != cert0 or dev._spec != spec0:
+            ctx.fail("tdm-spec-mutated:borealis", "Borealis: compiling changed the device specification / certificate in place", rp)
     reset_compilers(sf)
     try:
         compiled = prog.compile(device=dev)
     except Exception as e:  # noqa: BLE001
+        inputs_untouched()
         cl = classify_exception(e, CircuitError)
         if count:
             ctx.count("tdm:borealis:rejected", dict(c=case), True)
@@ -623,9 +663,21 @@ def borealis_oracle(ctx, sf, fx, case, count=True):
         return
     finally:
         reset_compilers(sf)
+    inputs_untouched()
     if count:
         ctx.count("tdm:borealis:accepted", dict(c=case), True, sample=dict(L=case["L"], offsets=case["offsets"], mut=case["mut"]))
         ctx.tally(f"tdm:mut:{case['mut']}")
+    # same program, same device, compiled again (no reset in between: the class keeps the layout): same result
+    try:
+        again = prog.compile(device=dev)
+        same = [list(map(float, a)) for a in again.tdm_params] == [list(map(float, a)) for a in compiled.tdm_params] and \
+            [(type(c.op).__name__, str(c.op.p)) for c in again.circuit] == [(type(c.op).__name__, str(c.op.p)) for c in compiled.circuit]
+        if not same:
+            ctx.fail("tdm-not-repeatable:borealis", "Borealis: compiling the same program twice gives different gate arguments", rp)
+    except Exception as e:  # noqa: BLE001
+        ctx.fail("tdm-not-repeatable:borealis", f"Borealis: second compile of an accepted program raised {type(e).__name__}: {str(e)[:100]}", rp)
+    finally:
+        reset_compilers(sf)
     # (a) layout, gate for gate and mode for mode
     got = [(type(c.op).__name__, sorted(r.ind for r in c.reg)) for c in compiled.circuit]
     if got != [(c, sorted(m)) for c, m in BOREALIS_SKEL]:
@@ -654,7 +706,7 @@ def borealis_oracle(ctx, sf, fx, case, count=True):
     # (c) phase compensation: compensated = source + own accumulated offset - previous one (mod pi; mod 2 pi if no shift needed)
     prev = np.zeros(L)
     for i in range(3):
-        srcphi = np.array(case["args"][1 + 2 * i], dtype=float)
+        srcphi = np.array(eff_args[1 + 2 * i], dtype=float)
         newphi = np.array(compiled.tdm_params[1 + 2 * i], dtype=float)
         if case["offsets"][i] is not None:
             if np.max(np.abs(newphi - srcphi)) > 1e-12:
@@ -672,7 +724,123 @@ def borealis_oracle(ctx, sf, fx, case, count=True):
                      f"loop {i}, time bin {j}: compensated phase {newphi[j]} is not source + offsets = {target[j]} modulo "
                      f"{'2 pi' if inr[j] else 'pi'}", rp)
             return
+        if case.get("via_utils") and i > 0 and not inr.all() and np.min(PI / 2 - np.abs(w[~inr])) < -1e-9:
+            j = int(np.argmax(np.abs(w)))
+            ctx.fail("tdm-utils-phases-not-compatible:borealis", f"after make_phases_compatible, loop {i} time bin {j} still needs a pi shift "
+                     f"(compensated phase {w[j]})", rp)
+            return
         prev = corr
+    # (e) realistic loss: the same circuit plus the certificate's losses at the documented places
+    if case.get("loss"):
+        borealis_loss_check(ctx, sf, fx, case, compiled, rp)
+    # (d) same photon statistics (last: unrolling changes the compiled program object): the compiled circuit (loop offsets as gates, compensated phases) prepares the state of the
+    #     source circuit with the documented pi shifts (loops 1, 2) applied, up to local phases — all pulses, space-unrolled
+    if case["mut"] is None and L >= 44:
+        shifted = copy.deepcopy(eff_args)
+        prev = np.zeros(L)
+        for i in range(3):
+            if case["offsets"][i] is not None:
+                continue
+            corr = np.array([case["loop_phases"][i] * (j // DELAYS[i]) for j in range(L)])
+            target = np.array(eff_args[1 + 2 * i], dtype=float) + corr - prev
+            k = np.round((np.array(compiled.tdm_params[1 + 2 * i], dtype=float) - target) / PI).astype(int)
+            if i > 0:
+                shifted[1 + 2 * i] = (np.array(eff_args[1 + 2 * i], dtype=float) + PI * (k % 2)).tolist()
+            prev = corr
+        Nc, Mc = tdm_final_moments(compiled)
+        Ne, Me = tdm_final_moments(build_borealis(sf, dict(case, args=shifted, via_utils=False)))
+        d = max(float(np.max(np.abs(np.abs(Nc) - np.abs(Ne)))), float(np.max(np.abs(np.abs(Mc) - np.abs(Me)))))
+        ctx.tally("tdm:borealis:statistics-compared")
+        if d > 1e-7:
+            ctx.fail("tdm-statistics-differ:borealis", f"Borealis: the compiled circuit (loop offsets {case['loop_phases']}, compensated phases) does not "
+                     f"prepare the source's state up to the documented pi shifts and local phases (moment distance {d:.3g})", rp)
+
+
+def tdm_final_moments(prog):
+    """(N, M) moments of all pulses of a TDM program (space-unrolled, measurements dropped), own symplectics"""
+    from strawberryfields.parameters import par_evaluate
+    prog.space_unroll()
+    n = prog.num_subsystems
+    V = np.eye(2 * n)
+    for c in prog.circuit:
+        name = type(c.op).__name__
+        if name.startswith("Measure"):
+            continue
+        S, _ = sim.gate_symplectic(name, [float(par_evaluate(x)) for x in c.op.p])
+        if getattr(c.op, "dagger", False):
+            S = np.linalg.inv(S)
+        m = [r.ind for r in c.reg]
+        ix = m + [x + n for x in m]
+        V[ix, :] = S @ V[ix, :]
+        V[:, ix] = V[:, ix] @ S.T
+    A, B, C = V[:n, :n], V[:n, n:], V[n:, n:]
+    return 0.25 * (A + C + 1j * (B - B.T) - 2 * np.eye(n)), 0.25 * (A - C + 1j * (B + B.T))
+
+
+def borealis_loss_check(ctx, sf, fx, case, compiled, rp):
+    from strawberryfields.parameters import par_evaluate
+    import strawberryfields.ops as ops
+    L = case["L"]
+    dev, spec = borealis_device(sf, fx, case["loop_phases"])
+    rel = [0.9 + 0.005 * k for k in range(16)]
+    dev._certificate["relative_channel_efficiencies"] = list(rel)
+    cert0 = copy.deepcopy(dev.certificate)
+    prog = build_borealis(sf, case)
+    reset_compilers(sf)
+    try:
+        lossy = prog.compile(device=dev, realistic_loss=True)
+    except Exception as e:  # noqa: BLE001
+        ctx.fail("tdm-loss:borealis", f"realistic_loss=True: compile of a program accepted without it raised {type(e).__name__}: {str(e)[:100]}", rp)
+        return
+    finally:
+        reset_compilers(sf)
+    ctx.tally("tdm:borealis:loss-compared")
+    if dev.certificate != cert0:
+        ctx.fail("tdm-spec-mutated:borealis", "realistic_loss=True changed the device certificate in place", rp)
+    kept = [c for c in lossy.circuit if not isinstance(c.op, ops.LossChannel)]
+    a = [(type(c.op).__name__, [r.ind for r in c.reg], str(c.op.p)) for c in kept]
+    b = [(type(c.op).__name__, [r.ind for r in c.reg], str(c.op.p)) for c in compiled.circuit]
+    if a != b or [list(map(float, x)) for x in lossy.tdm_params[:7]] != [list(map(float, x)) for x in compiled.tdm_params[:7]]:
+        ctx.fail("tdm-loss:borealis", "realistic_loss=True changes the circuit beyond adding loss channels", rp)
+        return
+    # documented places: loss before MeasureFock (relative channel efficiencies, per time bin), after Sgate (common efficiency),
+    # after each BSgate on its second mode (loop efficiency of that loop)
+    want, loop = [], 0
+    for c in compiled.circuit:
+        name, regs = type(c.op).__name__, [r.ind for r in c.reg]
+        if name == "MeasureFock":
+            want.append(("param", regs))
+        if name == "Sgate":
+            want.append((cert0["common_efficiency"], regs))
+        if name == "BSgate":
+            want.append((cert0["loop_efficiencies"][loop], regs[1:2]))
+            loop += 1
+    got = []
+    for c in lossy.circuit:
+        if isinstance(c.op, ops.LossChannel):
+            v = c.op.p[0]
+            try:
+                got.append((float(par_evaluate(v)), [r.ind for r in c.reg]))
+            except Exception:  # noqa: BLE001
+                got.append(("param", [r.ind for r in c.reg]))
+    order_l = [x for x in lossy.circuit]
+    # relative order: each loss channel directly before the measurement / directly after its gate
+    pos_ok = True
+    for i, c in enumerate(order_l):
+        if isinstance(c.op, ops.LossChannel):
+            nxt = type(order_l[i + 1].op).__name__ if i + 1 < len(order_l) else None
+            prv = type(order_l[i - 1].op).__name__ if i > 0 else None
+            if not (nxt == "MeasureFock" or prv in ("Sgate", "BSgate")):
+                pos_ok = False
+    # order of `want` follows the circuit; the loss before the measurement precedes it, the others follow their gate
+    wl = [w for w in want if w[0] != "param"] + [w for w in want if w[0] == "param"]
+    gl = [g for g in got if g[0] != "param"] + [g for g in got if g[0] == "param"]
+    if wl != gl or not pos_ok:
+        ctx.fail("tdm-loss:borealis", f"realistic_loss=True: loss channels {got} instead of the certificate's {want}", rp)
+        return
+    tiled = (rel * ((L + 15) // 16))[:L]
+    if [float(x) for x in lossy.tdm_params[-1]] != tiled:
+        ctx.fail("tdm-loss:borealis", "realistic_loss=True: per-time-bin detection efficiencies are not the certificate's relative channel efficiencies, tiled", rp)
 
 
 def gen_tdm1_case(rng):
@@ -687,10 +855,10 @@ def gen_tdm1_case(rng):
         alpha[rng.randrange(2 * c)] = 27
     if mut == "r-range":
         phi[rng.randrange(2 * c)] = rng.choice([3.5, -0.1])
-    return dict(kind="tdm1", target=target, c=c, alpha=alpha, phi=phi, theta=theta, mut=mut)
+    return dict(kind="tdm1", target=target, c=c, alpha=alpha, phi=phi, theta=theta, mut=mut, sqfix=rng.choice([0.5643, 0.5643, 0.3]))
 
 
-def tdm1_layout(target, tm=4):
+def tdm1_layout(target, tm=4, sqfix=0.5643):
     import inspect
     return inspect.cleandoc(f"""
         name template_tdm
@@ -705,7 +873,7 @@ def tdm1_layout(target, tm=4):
         float array p3[1, {tm}] =
             {{m}}
 
-        Sgate(0.5643, 0) | 1
+        Sgate({sqfix}, 0) | 1
         BSgate({{bs}}, 0) | (1, 0)
         Rgate({{r}}) | 1
         MeasureHomodyne({{m}}) | 0
@@ -715,26 +883,42 @@ def tdm1_layout(target, tm=4):
 TDM1_GP = {"bs": [0, [0, 6.283185307179586]], "r": [0, [0, 3.141592653589793], 3.141592653589793], "m": [0, [0, 6.283185307179586]]}
 
 
-def tdm1_oracle(ctx, sf, case, count=True):
+def build_tdm1(sf, case):
     import strawberryfields.ops as ops
-    from strawberryfields.program_utils import CircuitError
-    from strawberryfields.parameters import par_evaluate
     mut, target = case["mut"], case["target"]
+    sqfix = case.get("sqfix", 0.5643)
     modes = {"concurrent": 2 if mut != "concurrent" else 3, "spatial": 1, "temporal_max": 100 if mut != "temporal" else 1}
-    spec = {"target": target, "layout": tdm1_layout(target), "modes": modes, "compiler": [target], "gate_parameters": TDM1_GP}
+    spec = {"target": target, "layout": tdm1_layout(target, sqfix=sqfix), "modes": modes, "compiler": [target], "gate_parameters": TDM1_GP}
     dev = sf.Device(spec)
     prog = sf.TDMProgram(N=2)
     with prog.context(case["alpha"], case["phi"], case["theta"]) as (p, q):
         if mut == "dgate":
-            ops.Dgate(0.5643) | q[1]
+            ops.Dgate(sqfix) | q[1]
         else:
-            ops.Sgate(2.0 if mut == "sq-value" else 0.5643, 0.4 if mut == "sq-phase" else 0) | q[1]
+            ops.Sgate(2.0 if mut == "sq-value" else sqfix, 0.4 if mut == "sq-phase" else 0) | q[1]
         ops.BSgate(p[0]) | ((q[0], q[1]) if mut == "bs-swapped" else (q[1], q[0]))
         ops.Rgate(p[1]) | q[1]
         if mut == "fock":
             ops.MeasureFock() | q[0]
         else:
             ops.MeasureHomodyne(p[2]) | q[0]
+    return prog, dev, modes
+
+
+def tdm1_oracle(ctx, sf, case, count=True):
+    try:
+        _tdm1_oracle(ctx, sf, case, count)
+    except Exception as e:  # noqa: BLE001
+        ctx.fail(f"tdm-oracle-crash:{type(e).__name__}", f"{case['target']}: {type(e).__name__} {str(e)[:150]}", dict(case))
+
+
+def _tdm1_oracle(ctx, sf, case, count=True):
+    from strawberryfields.program_utils import CircuitError
+    from strawberryfields.parameters import par_evaluate
+    mut, target = case["mut"], case["target"]
+    sqfix = case.get("sqfix", 0.5643)
+    prog, dev, modes = build_tdm1(sf, case)
+    snap0 = prog_snapshot(prog)
     rp = dict(case)
     ctx.oracle_cases += 1
     reset_compilers(sf)
@@ -753,13 +937,17 @@ def tdm1_oracle(ctx, sf, case, count=True):
         reset_compilers(sf)
     if count:
         ctx.count(f"tdm:{target}:accepted", dict(c=case), True, sample=dict(target=target, mut=mut))
+    if prog_snapshot(prog) != snap0:
+        ctx.fail(f"tdm-input-mutated:{target}", f"{target}: compiling changed the source program in place", rp)
+    if [list(map(float, a)) for a in compiled.tdm_params] != [list(map(float, a)) for a in (case["alpha"], case["phi"], case["theta"])]:
+        ctx.fail(f"tdm-parameters-changed:{target}", f"{target} compiler has no parameter update, but the compiled gate arguments differ from the source", rp)
     got = [(type(c.op).__name__, [r.ind for r in c.reg]) for c in compiled.circuit]
     want = [("Sgate", [1]), ("BSgate", [1, 0]), ("Rgate", [1]), ("MeasureHomodyne", [0])]
     if got != want:
         ctx.fail(f"tdm-nonconforming:{target}", f"accepted {target} circuit {got} does not match the layout {want}", rp)
         return
     sq = [float(par_evaluate(x)) for x in compiled.circuit[0].op.p]
-    if abs(sq[0] - 0.5643) > 1e-9 or abs(sq[1]) > 1e-9 or abs(float(par_evaluate(compiled.circuit[1].op.p[1]))) > 1e-9:
+    if abs(sq[0] - sqfix) > 1e-9 or abs(sq[1]) > 1e-9 or abs(float(par_evaluate(compiled.circuit[1].op.p[1]))) > 1e-9:
         ctx.fail(f"tdm-fixed-parameter:{target}", f"accepted {target} circuit has fixed layout values changed: Sgate{sq}", rp)
     for name, vals in (("bs", compiled.tdm_params[0]), ("r", compiled.tdm_params[1]), ("m", compiled.tdm_params[2])):
         bad = [float(v) for v in vals if not hw12.in_ranges(float(v), TDM1_GP[name])]
